@@ -15,7 +15,9 @@ Inductive step :=
 | SDel (p : list bytes)
 | SCopy (src dst : list bytes)
 | SSigop (name kid op : bytes)
-| SRepr.
+| SRepr
+| SSurr (p : list bytes) (onkey : bool)      (* F68: an unpaired surrogate escape appended *)
+| SDup (k : bytes) (x : json) (before : bool). (* F69: a second member of an existing name *)
 
 Fixpoint strs (l : list json) : option (list bytes) :=
   match l with
@@ -41,6 +43,13 @@ Definition parse_step (j : json) : option step :=
       else if bytes_eqb op (bs "sigop") then
         match rest with [JStr n; JStr k; JStr o] => Some (SSigop n k o) | _ => None end
       else if bytes_eqb op (bs "repr") then Some SRepr
+      else if bytes_eqb op (bs "surr") then
+        match rest with
+        | [JArr p; JStr w] => match strs p with Some p' => Some (SSurr p' (bytes_eqb w (bs "name"))) | None => None end
+        | _ => None
+        end
+      else if bytes_eqb op (bs "dup") then
+        match rest with [JStr k; x; JStr w] => Some (SDup k x (bytes_eqb w (bs "before"))) | _ => None end
       else None
   | _ => None
   end.
@@ -107,8 +116,45 @@ Definition sigop_apply (op : bytes) (s : bytes) : bytes :=
         else s
     end.
 
-Definition apply_step (st : step) (v : json) : option json :=
+(* insert (k, x) directly before / after the first member named k *)
+Fixpoint insert_dup (k : bytes) (x : json) (before : bool) (m : list (bytes * json)) : list (bytes * json) :=
+  match m with
+  | [] => []
+  | (k', v) :: m' =>
+      if bytes_eqb k k' then (if before then (k, x) :: (k', v) :: m' else (k', v) :: (k, x) :: m')
+      else (k', v) :: insert_dup k x before m'
+  end.
+
+(* rename the member at path p by f (applied to its name) *)
+Fixpoint jrename_path (p : list bytes) (f : bytes -> bytes) (j : json) : json :=
+  match p with
+  | [] => j
+  | k :: rest =>
+      match rest with
+      | [] => match j with
+              | JObj m => JObj (map (fun kv => if bytes_eqb k (fst kv) then (f (fst kv), snd kv) else kv) m)
+              | _ => j
+              end
+      | _ => match j with JObj m => JObj (map_first k (jrename_path rest f) m) | _ => j end
+      end
+  end.
+
+(* an unpaired surrogate escape at the end of the string value / member name at path p.
+   What every JSON reader sees (the reference parser, encoding/json, gjson): U+FFFD appended.
+   What CanonicalJSON makes of it (compactUnicodeEscape, finding F68): nothing, the escape is
+   dropped - so for the code the step changes nothing. *)
+Definition surr_spec (p : list bytes) (onkey : bool) (v : json) : json :=
+  if onkey then jrename_path p (fun k => k ++ replacement_char) v
+  else match jpath p v with
+       | Some (JStr s) => jset_path p (JStr (s ++ replacement_char)) v
+       | _ => v
+       end.
+
+(* code = true: the steps as the code treats them; false: as the specification reads them *)
+Definition apply_step (code : bool) (st : step) (v : json) : option json :=
   match st with
+  | SSurr p onkey => Some (if code then v else surr_spec p onkey v)
+  | SDup k x before => Some (match v with JObj m => JObj (insert_dup k x before m) | _ => v end)
   | SSign n k seed => s_sign_value n k seed v
   | SSet p x => Some (jset_path p x v)
   | SDel p => Some (jdel_path p v)
@@ -122,15 +168,62 @@ Definition apply_step (st : step) (v : json) : option json :=
   end.
 
 (* all states, start first; None when a sign step returns an error *)
-Fixpoint run_trace (steps : list step) (v : json) : option (list json) :=
+Fixpoint run_trace (code : bool) (steps : list step) (v : json) : option (list json) :=
   match steps with
   | [] => Some [v]
   | st :: r =>
-      match apply_step st v with
+      match apply_step code st v with
       | None => None
-      | Some v' => match run_trace r v' with Some tr => Some (v :: tr) | None => None end
+      | Some v' => match run_trace code r v' with Some tr => Some (v :: tr) | None => None end
       end
   end.
+
+Definition has_surr (steps : list step) : bool :=
+  existsb (fun st => match st with SSurr _ _ => true | _ => false end) steps.
+
+(* some state has a member name other than signatures / unsigned twice *)
+Definition has_repeats (v : json) : bool :=
+  match v with
+  | JObj m => negb (N.of_nat (length (dedup_last (strip_members m))) =? N.of_nat (length (strip_members m)))
+  | _ => false
+  end.
+
+(* is there a backslash-u escape of a surrogate that is not half of a pair (finding F68) *)
+Fixpoint has_unpaired_surrogate_fuel (fuel : nat) (s : bytes) : bool :=
+  match fuel with
+  | O => false
+  | S f =>
+      match s with
+      | [] => false
+      | c :: r =>
+          if c =? 92 then
+            match r with
+            | e :: r2 =>
+                if e =? 117 then
+                  match read_hex4 r2 with
+                  | Some (cp, r3) =>
+                      if is_high_surrogate cp then
+                        match r3 with
+                        | b :: u :: r4 =>
+                            if (b =? 92) && (u =? 117) then
+                              match read_hex4 r4 with
+                              | Some (lo, r5) => if is_low_surrogate lo then has_unpaired_surrogate_fuel f r5 else true
+                              | None => true
+                              end
+                            else true
+                        | _ => true
+                        end
+                      else if is_low_surrogate cp then true
+                      else has_unpaired_surrogate_fuel f r3
+                  | None => has_unpaired_surrogate_fuel f r2
+                  end
+                else has_unpaired_surrogate_fuel f r2
+            | [] => false
+            end
+          else has_unpaired_surrogate_fuel f r
+      end
+  end.
+Definition has_unpaired_surrogate (s : bytes) : bool := has_unpaired_surrogate_fuel (S (length s)) s.
 
 Definition final_state (tr : list json) : json := last tr JNull.
 
